@@ -80,6 +80,10 @@ func (s *DefaultSaftyRules) CheckVote(qc QuorumCertInterface, logid string, vali
 	}
 	// 签名和公钥是否匹配
 	if ok, err := s.Crypto.VerifyVoteMsgSign(signs[0], qc.GetProposalId()); !ok {
+		// 签名能解析但验证不通过时底层返回(false, nil), 不能把nil当成检查通过
+		if err == nil {
+			err = InvalidVoteSign
+		}
 		return err
 	}
 	// 检查voteinfo信息, proposalView小于lastVoteRound，parentView不小于preferredRound
@@ -140,10 +144,15 @@ func (s *DefaultSaftyRules) CheckProposal(proposal, parent QuorumCertInterface, 
 	// 检查justify的所有vote签名
 	justifySigns := parent.GetSignsInfo()
 	validCnt := 0
+	counted := map[string]bool{} // 同一个validator的签名只能算一票
 	for _, v := range justifySigns {
 		if !isInSlice(v.GetAddress(), justifyValidators) {
 			continue
 		}
+		if counted[v.GetAddress()] {
+			continue
+		}
+		counted[v.GetAddress()] = true
 		// 签名和公钥是否匹配
 		if ok, _ := s.Crypto.VerifyVoteMsgSign(v, parent.GetProposalId()); !ok {
 			return InvalidVoteSign
